@@ -40,6 +40,7 @@ func genReqSc(g *simrt.Tape, maxItems int) ReqSc {
 		rs.Version = g.Draw(5)
 	}
 	rs.Option = g.Draw(4)
+	rs.Hdr = genHdr(g)
 	if rs.Option == 3 && g.Draw(2) == 0 {
 		rs.Option = g.Draw(3)
 	}
@@ -349,7 +350,11 @@ func init() {
 		Generate: genC09, Decode: decodeC09, Execute: execC09,
 		Config:      func(any) simrt.Config { return simrt.Config{MaxSteps: 200000, IdleProbe: 4 * 1e9} },
 		Runs:        clientRuns(150000, 8000000),
-		Floors:      []Floor{{Name: "all-short-batches", Count: c09FloorCount, Scenario: c09FloorScenario}},
+		Floors: []Floor{{Name: "all-short-batches", Count: c09FloorCount, Scenario: c09FloorScenario},
+			{Name: "header-elements", Count: func(string) int { return len(allHdrs()) * 4 }, Scenario: func(_ string, i int) any {
+				hs := allHdrs()
+				return &C09Sc{Reqs: []ReqSc{{Version: 2 + i%3, Option: (i / len(hs)) % 4, Hdr: hs[i%len(hs)], Items: []ItemSc{{Tok: "ok"}, {Tok: "et"}, {Tok: "ok"}, {Tok: "pe"}}}}}
+			}}},
 		Rule:        "one evaluation = one simulated run in which 1-4 request batches (0-12 items; outcomes ok/typed error/plain error/panic(error|string|Stringer|int|nil-deref)/unrouted/critical extension; option unset/Continue/Stop/Undo; supported or unsupported version; matching or mismatching count; with/without ids) are executed concurrently on one real BatchExecutor, directly or through real client -> simnet -> real server; distinct = distinct event-log hashes among runs with at least one preemption or chunked read",
 		Components:  serverComponents,
 		Assumptions: []string{"for an unset continuation option the model accepts Stop or Continue behaviour (the statement does not fix the default)", "result reasons and messages are not compared", "rewriter is semantics-preserving"},
